@@ -9,6 +9,7 @@ import (
 	"github.com/trustbloc/sidetree-core-go/pkg/api/operation"
 	"github.com/trustbloc/sidetree-core-go/pkg/canonicalizer"
 	"github.com/trustbloc/sidetree-core-go/pkg/hashing"
+	"github.com/trustbloc/sidetree-core-go/pkg/jws"
 	"github.com/trustbloc/sidetree-core-go/pkg/patch"
 	"github.com/trustbloc/sidetree-core-go/pkg/versions/1_0/model"
 )
@@ -93,6 +94,77 @@ type Builder struct {
 	OriginPerShape bool
 	// Extra patches are appended to every delta this builder produces (used to make requests version-specific).
 	Extra []patch.Patch
+	// KidPad > 0: the protected header carries a kid of that many characters.
+	KidPad int
+}
+
+// kidSigner adds a kid member to the signer's protected header.
+type kidSigner struct {
+	Signer
+	kid string
+}
+
+func (k kidSigner) Headers() jws.Headers {
+	h := jws.Headers{}
+	for n, v := range k.Signer.Headers() {
+		h[n] = v
+	}
+	h["kid"] = k.kid
+	return h
+}
+
+const bigNumber = "100000000000000000000" // 1e20 written out, as canonical JSON spells it
+
+// InflatingRequest builds the request of an update / recover shape that is as large as intake allows in the spelling
+// the client submits (numbers as 1e20, a long kid) and whose canonical re-serialisation - what the library stores for an
+// anchored operation - is larger than maxOperationSize.  The delta stays within maxDeltaSize in canonical form.
+// ok = false when the shape cannot be inflated (not a well-formed update / recover).
+func (b *Builder) InflatingRequest(sh Shape, maxOperationSize, maxDeltaSize int) (req []byte, ok bool, err error) {
+	if (sh.Ty != "U" && sh.Ty != "R") || sh.Sig != "ok" || sh.Dl != "ok" {
+		return nil, false, nil
+	}
+	plain, err := b.Request(sh)
+	if err != nil {
+		return nil, false, err
+	}
+	var pm struct {
+		Delta json.RawMessage `json:"delta"`
+	}
+	if json.Unmarshal(plain, &pm) != nil {
+		return nil, false, nil
+	}
+	n := (maxDeltaSize - len(pm.Delta) - 160) / (len(bigNumber) + 1)
+	if n < 10 {
+		return nil, false, nil
+	}
+	nums := strings.TrimSuffix(strings.Repeat("1e20,", n), ",")
+	bb := *b
+	bb.Extra = append(append([]patch.Patch{}, b.Extra...), mustPatch(patch.NewAddServiceEndpointsPatch(`[{"id":"inflate","type":"T","serviceEndpoint":"https://e.example.com","n":[`+nums+`]}]`)))
+	build := func(pad int) ([]byte, error) {
+		bb.KidPad = pad
+		r, e := bb.Request(sh)
+		if e != nil {
+			return nil, e
+		}
+		return []byte(strings.ReplaceAll(string(r), bigNumber, "1e20")), nil
+	}
+	r0, err := build(1)
+	if err != nil {
+		return nil, false, err
+	}
+	pad := (maxOperationSize - len(r0) - 8) * 3 / 4
+	if pad < 1 {
+		pad = 1
+	}
+	r1, err := build(pad)
+	if err != nil {
+		return nil, false, err
+	}
+	stored := len(r1) + n*(len(bigNumber)-len("1e20"))
+	if len(r1) > maxOperationSize || stored <= maxOperationSize {
+		return nil, false, nil
+	}
+	return r1, true, nil
 }
 
 func (b *Builder) patches(dl string, p int) []patch.Patch {
@@ -181,7 +253,15 @@ func (b *Builder) tamperSig(compact string, sh Shape, payloadAlt func(map[string
 }
 
 // signingKey returns the key whose JWK is embedded in the signed data and the signer that signs it.
-func (b *Builder) signingKey(sh Shape) (embedded *Key, signer Signer) {
+func (b *Builder) signingKey(sh Shape) (*Key, Signer) {
+	k, s := b.signingKey0(sh)
+	if b.KidPad > 0 {
+		return k, kidSigner{s, strings.Repeat("k", b.KidPad)}
+	}
+	return k, s
+}
+
+func (b *Builder) signingKey0(sh Shape) (embedded *Key, signer Signer) {
 	rk := b.Keys.ByID[sh.Rk]
 	att := b.Keys.ByID[AttackerKey]
 	switch sh.Sig {
